@@ -151,6 +151,7 @@ static qtreetbl_obj_t *put_obj(qtreetbl_t *tbl, qtreetbl_obj_t *obj,
 static qtreetbl_obj_t *remove_obj(qtreetbl_t *tbl, qtreetbl_obj_t *obj,
                                   const void *name, size_t namesize);
 static void free_objs(qtreetbl_obj_t *obj);
+static void clear_tids(qtreetbl_obj_t *obj);
 static uint8_t reset_iterator(qtreetbl_t *tbl);
 
 struct branch_obj_s {
@@ -1319,11 +1320,27 @@ static void free_objs(qtreetbl_obj_t *obj) {
     free(obj);
 }
 
+static void clear_tids(qtreetbl_obj_t *obj) {
+    if (obj == NULL) {
+        return;
+    }
+    obj->tid = 0;
+    clear_tids(obj->left);
+    clear_tids(obj->right);
+}
+
 static uint8_t reset_iterator(qtreetbl_t *tbl) {
     if (tbl->root != NULL) {
         tbl->root->next = NULL;
     }
-    return (++tbl->tid);
+    if (++tbl->tid == 0) {
+        // The 8-bit travel id wrapped around. New nodes carry id 0 and old
+        // nodes may still carry ids from the previous cycle, so wipe them
+        // and never hand out 0 as a travel id.
+        clear_tids(tbl->root);
+        tbl->tid = 1;
+    }
+    return tbl->tid;
 }
 
 static void print_branch(struct branch_obj_s *branch, FILE *out) {
